@@ -298,7 +298,7 @@ pub fn run(r: &Report) {
                                     continue;
                                 }
                                 // thin the payload cross product: txid pattern x entropy pattern only on the diagonal +- 1
-                                if !(tp == ep || tp == (ep + 1) % 8 || vout == 0) {
+                                if !r.tier.thorough() && !(tp == ep || tp == (ep + 1) % 8 || vout == 0) {
                                     continue;
                                 }
                                 if vout == (1 << 30) - 1 && pegin {
